@@ -75,11 +75,14 @@ bool dispatch::set_default(uintptr_t id)
 }
 void dispatch::set_error(event_handler_t cmd, void *arg)
 {
-	if (_err.cmd) {
-		_err.cmd(_err.arg, 0);
-	}
+	event_handler_t old = _err.cmd;
+	void *ctx = _err.arg;
+	/* replace first: the notification may emit events itself */
 	_err.cmd = cmd;
 	_err.arg = arg;
+	if (old) {
+		old(ctx, 0);
+	}
 }
 
 __MPT_NAMESPACE_END
